@@ -20,7 +20,9 @@ def gen(rng):
     kinds = {1: ["dh"], 2: ["direction", "distance", "angle"], 3: ["direction", "distance", "angle", "s-distance", "z-angle", "dh"]}[dim]
     net, truth, meta = netgen.make_network(rng, dim=dim, n=n, n_fixed=rng.randint({1: 1, 2: 2, 3: 2}[dim], 3), datum="fixed", noise=0.0,
                                            kinds=kinds, extra=rng.choice([0.3, 0.8]), approx=("perturbed" if approx == "perturbed" else approx),
-                                           perturb=rng.choice([0.02, 0.2]), with_heights=rng.random() < 0.6)
+                                           # (gama measures the misclosure of an angle with the distance to its FIRST target: with approximate
+                                           # coordinates 0.2 m off and legs of 60 m / 560 m a consistent angle can exceed tol-abs = 1 m; 0.02 m cannot)
+                                           perturb=(0.02 if "angle" in kinds else rng.choice([0.02, 0.2])), with_heights=rng.random() < 0.6)
     if dim == 3 and rng.random() < 0.35:
         # planimetry known, heights to be derived (zenith angles / height differences)
         meta["approx"] = approx = "z-omitted"
